@@ -3,6 +3,7 @@ import EinxModel.Driver.IR
 import EinxModel.Driver.Generic
 import EinxModel.Generic.LowerOps
 import EinxModel.Generic.LowerOpsDenote
+import EinxModel.Generic.LowerSim
 /-!
 Driver for the lowering models of `Generic/LowerOps.lean` (C01 / C17).
 
@@ -40,9 +41,8 @@ def progXJson (p : List Einx.IR.InstrX) : Json := jArr (p.map Einx.Driver.IR.ins
 
 def progXEq (a b : List Einx.IR.InstrX) : Bool := (progXJson a).compress == (progXJson b).compress
 
-def skeletonX : Einx.IR.InstrX → Einx.IR.InstrX
-  | .base i => .base (instrSkeleton i)
-  | i => i
+/-- The skeleton the theorems `lower_*_size_generic` (Props/C17LowerOps.lean) speak about. -/
+def skeletonX : Einx.IR.InstrX → Einx.IR.InstrX := instrSkeletonX
 
 /-- The stage-3 expression the theorems speak about has the same dimensions as einx's tree. -/
 def sameDims (e1 e2 : Einx.Denote.Expr) : Bool :=
